@@ -130,7 +130,7 @@ func c16GenWK(t *rapid.T) c16WKSpec {
 		w.Doc = rapid.SampledFrom(c16BadDocs).Draw(t, "doc")
 	} else {
 		w.Delegate = c16GenName(t, "delegateKind")
-		w.Extra = rapid.SampledFrom([]string{"", "", "before", "after", "both"}).Draw(t, "extra")
+		w.Extra = rapid.SampledFrom([]string{"", "", "before", "after", "both", "expiry-members"}).Draw(t, "extra")
 	}
 	if rapid.IntRange(0, 9).Draw(t, "wkBig") < 3 {
 		w.Pad = rapid.SampledFrom(c16Pads).Draw(t, "pad")
